@@ -550,7 +550,9 @@ def b_itp(job):
         if rng.random() < 0.5:
             pre += [{"c": "assert", "t": tb.app("or", [t, tb.app("not", [g.bools[1]])]), "nm": "lp0", "inner": []}, {"c": "check-sat"}]
         other = rng.choice(g.bools[1:-1]) if len(g.bools) > 2 else tb.app("not", [t])     # not the formula asserted later
-        pre += [{"c": "assert", "t": tb.app("or", [q, other]), "nm": "lp1", "inner": []}, {"c": "pop", "n": 1}]
+        # the popped assertion is q itself or a formula over it (partition marks are put on the asserted term at once,
+        # on its sub-terms only when the frame is simplified)
+        pre += [{"c": "assert", "t": rng.choice([q, q, tb.app("or", [q, other])]), "nm": "lp1", "inner": []}, {"c": "pop", "n": 1}]
         tail = [{"c": "assert", "t": tb.app("or", [q, t]), "nm": "lpa", "inner": []},
                 {"c": "assert", "t": tb.app("or", [tb.app("not", [q]), t]), "nm": "lpb", "inner": []},
                 {"c": "assert", "t": tb.app("not", [t]), "nm": "lpc", "inner": []}]
